@@ -187,8 +187,9 @@ def plusChain (a : Wait) (ws : List Wait) : Wait := ws.foldl (fun acc w => waitC
 
 /-- Python's `sum(ws)`: starts from the int `0` (`none`); `0 + w` is `w.__radd__(0)`, which returns `w`
 itself (`if other == 0: return self`); afterwards `acc + w` is `wait_combine(acc, w)` -/
-def pySum (ws : List Wait) : Option Wait :=
-  ws.foldl (fun acc w => match acc with | none => some w | some f => some (waitCombine [f, w])) none
+def pySumStep (acc : Option Wait) (w : Wait) : Option Wait :=
+  match acc with | none => some w | some f => some (waitCombine [f, w])
+def pySum (ws : List Wait) : Option Wait := ws.foldl pySumStep none
 
 /-! ### constructors: omitted arguments take the defaults regenerated from the source -/
 
@@ -238,7 +239,7 @@ def mkExpBackoff (maxAtt init mult maxd : Option Rat) (jitter : Option Bool) : P
   let i := init.getD dflt_ExponentialBackoffRetryPolicy_initial_delay
   let m := mult.getD dflt_ExponentialBackoffRetryPolicy_multiplier
   let d := maxd.getD dflt_ExponentialBackoffRetryPolicy_max_delay
-  let j := match jitter with | some b => b | none => dflt_ExponentialBackoffRetryPolicy_jitter.getD true
+  let j := jitter.getD (dflt_ExponentialBackoffRetryPolicy_jitter.getD true)
   { retry := none,
     wait := .leaf (if j then .randomExp i m d dflt_wait_random_exponential_min else .exponential i m d dflt_wait_exponential_min),
     stop := .leaf (.afterAttempt (maxAtt.getD dflt_ExponentialBackoffRetryPolicy_maximum_attempts)) }
